@@ -7,7 +7,9 @@ test.  Output: coq/Gen/Tload.v (regenerated on every check).
   q > thr (or q >= thr when ver_thr_incl), where thr is the midpoint between float(current) and the next
   binary64 above it.  The midpoint is computed exactly here; which side the tie falls on is *observed* by
   handing CPython the exact decimal expansion of the midpoint.
-- record_parts: the dataset parts named records_* (Kapture.__init__), sensor_types: SensorType names."""
+- record_parts: the dataset parts named records_* (Kapture.__init__), sensor_types: SensorType names.
+- loadable_types / loadable_tested: the parts skip_list can name (KAPTURE_LOADABLE_TYPES) and the classes the loader
+  source guards with `in kapture_loadable_data`."""
 import inspect
 import math
 from fractions import Fraction
@@ -57,4 +59,16 @@ def emit():
     L.append('(* names of kapture.SensorType *)')
     L.append('Definition sensor_types : list string := ' +
              kv.clist(kv.cstr(t.name) for t in kapture.SensorType) + '.')
+    # the parts kapture_from_dir can be told to skip: KAPTURE_LOADABLE_TYPES (a set: emitted sorted by name), and the
+    # classes the body of the loader (with its three helpers) actually tests with `kapture.X in kapture_loadable_data`
+    import re
+    L.append('(* class names of kapture.io.csv.KAPTURE_LOADABLE_TYPES, sorted *)')
+    L.append('Definition loadable_types : list string := ' +
+             kv.clist(kv.cstr(n) for n in sorted(c.__name__ for c in kcsv.KAPTURE_LOADABLE_TYPES)) + '.')
+    src = ''.join(inspect.getsource(f) for f in (kcsv.kapture_from_dir, kcsv._load_all_records,
+                                                 kcsv._load_features_and_desc_and_matches,
+                                                 kcsv._load_points3d_and_observations))
+    tested = sorted(set(re.findall(r'kapture\.(\w+)\s+in\s+kapture_loadable_data', src)))
+    L.append('(* classes X for which the loader source tests `kapture.X in kapture_loadable_data`, sorted *)')
+    L.append('Definition loadable_tested : list string := ' + kv.clist(kv.cstr(n) for n in tested) + '.')
     return L
